@@ -19,6 +19,8 @@ vars == <<host, port>>
 
 ModelHostChars == {"a", "1", ".", ":", "%", "[", "]"}
 ModelPorts == {0, 1, 80, 65535}
+(* every well-known port (implementations like to special-case "small" ports, e.g. by a table) and its neighbours *)
+WellKnownPorts == 0..1025 \cup {65535}
 
 DigitChars == <<"0", "1", "2", "3", "4", "5", "6", "7", "8", "9">>
 Digit(n) == DigitChars[n + 1]
